@@ -77,9 +77,26 @@ func cgNorm(s string) string {
 func cgAlpha(fd *ast.FuncDecl) {
 	names := map[*ast.Object]string{}
 	n := 0
+	// the parser's resolver also binds the field keys of struct literals (buffer{data: data}) to locals of the same name: leave those alone
+	fieldKey := map[*ast.Ident]bool{}
+	ast.Inspect(fd, func(x ast.Node) bool {
+		if cl, ok := x.(*ast.CompositeLit); ok {
+			switch cl.Type.(type) {
+			case *ast.Ident, *ast.SelectorExpr:
+				for _, e := range cl.Elts {
+					if kv, ok := e.(*ast.KeyValueExpr); ok {
+						if k, ok := kv.Key.(*ast.Ident); ok {
+							fieldKey[k] = true
+						}
+					}
+				}
+			}
+		}
+		return true
+	})
 	ast.Inspect(fd, func(x ast.Node) bool {
 		id, ok := x.(*ast.Ident)
-		if !ok || id.Obj == nil || id.Obj.Kind != ast.Var || id.Name == "_" {
+		if !ok || id.Obj == nil || id.Obj.Kind != ast.Var || id.Name == "_" || fieldKey[id] {
 			return true
 		}
 		d, ok := id.Obj.Decl.(ast.Node)
@@ -1443,6 +1460,17 @@ func genCodec(r *Repo) (string, error) {
 		})
 	}
 	b.WriteString("(* fields the receiver overwrites unconditionally right after recv (connState.handleRequest) *)\nDefinition gen_receiver_resets : list (string * list string) := " + resets + ".\n")
+	// ---- pooled buffers: three syntactic facts about transport.go recv, tread.handle and
+	// rreadServerPayloader.PayloadCleanup (false when the shape is not found; never a refusal)
+	boolc := func(v bool) string {
+		if v {
+			return "true"
+		}
+		return "false"
+	}
+	fmt.Fprintf(&b, "\n(* recv: the decode buffer handed to m.decode is the pooled (or new) slice cut to exactly the size read from the stream:\n   data := *datap; data = make([]byte, size) | data = data[:size]; dataBuf = buffer{data: data} *)\nDefinition gen_recv_buffer_exact : bool := %s.\n", boolc(g.factRecvBufferExact()))
+	fmt.Fprintf(&b, "(* tread.handle: n, err = file.ReadAt(buf[:count], off)  and the reply carries  Data: buf[:n], fullBuffer: buf *)\nDefinition gen_rread_data_is_n : bool := %s.\n", boolc(g.factRreadDataIsN()))
+	fmt.Fprintf(&b, "(* rreadServerPayloader.PayloadCleanup: copy(r.Data, r.cs.pristineZeros) and only then readBufPool.Put(&r.fullBuffer);\n   pristineZeros and the pooled buffers are both make([]byte, msize) *)\nDefinition gen_cleanup_zeroes_before_put : bool := %s.\n", boolc(g.factCleanupZeroes()))
 	return b.String(), nil
 }
 
@@ -1459,4 +1487,148 @@ func init() { register(Generator{Name: "CodecGen", Run: genCodec}) }
 func cgRecvName(fd *ast.FuncDecl) string {
 	r, _ := cgRecvAndBuf(fd)
 	return r
+}
+
+// factRecvBufferExact looks into recv's appendBuffer closure.
+func (g *cg) factRecvBufferExact() bool {
+	fd, ok := g.funcs["recv"]
+	if !ok {
+		return false
+	}
+	found := false
+	ast.Inspect(fd.Body, func(n ast.Node) bool {
+		fl, ok := n.(*ast.FuncLit)
+		if !ok || fl.Type.Params == nil || len(fl.Type.Params.List) != 1 || len(fl.Type.Params.List[0].Names) != 1 {
+			return true
+		}
+		size := fl.Type.Params.List[0].Names[0].Name
+		var lit *ast.CompositeLit
+		ast.Inspect(fl.Body, func(m ast.Node) bool {
+			if as, ok := m.(*ast.AssignStmt); ok && len(as.Rhs) == 1 {
+				if cl, ok := as.Rhs[0].(*ast.CompositeLit); ok && g.text(cl.Type) == "buffer" {
+					lit = cl
+				}
+			}
+			return true
+		})
+		if lit == nil || len(lit.Elts) != 1 {
+			return true
+		}
+		kv, ok := lit.Elts[0].(*ast.KeyValueExpr)
+		if !ok || g.text(kv.Key) != "data" {
+			return true
+		}
+		d, ok := kv.Value.(*ast.Ident)
+		if !ok {
+			return true
+		}
+		// every assignment to d inside the closure must be one of the three allowed forms
+		good, cnt := true, 0
+		ast.Inspect(fl.Body, func(m ast.Node) bool {
+			as, ok := m.(*ast.AssignStmt)
+			if !ok || len(as.Lhs) != 1 || len(as.Rhs) != 1 || g.text(as.Lhs[0]) != d.Name {
+				return true
+			}
+			cnt++
+			r := g.text(as.Rhs[0])
+			if !(strings.HasPrefix(r, "*") || r == "make([]byte,"+size+")" || r == d.Name+"[:"+size+"]") {
+				good = false
+			}
+			return true
+		})
+		if good && cnt == 3 {
+			found = true
+		}
+		return true
+	})
+	return found
+}
+
+// factRreadDataIsN: in tread.handle,  N, err = X.ReadAt(BUF[:C], ...)  and  &rreadServerPayloader{rread: rread{Data: BUF[:N]}, ..., fullBuffer: BUF}.
+func (g *cg) factRreadDataIsN() bool {
+	fd, ok := g.funcs["tread.handle"]
+	if !ok {
+		return false
+	}
+	var nName, bufName string
+	ast.Inspect(fd.Body, func(m ast.Node) bool {
+		as, ok := m.(*ast.AssignStmt)
+		if !ok || len(as.Lhs) != 2 || len(as.Rhs) != 1 {
+			return true
+		}
+		c, ok := as.Rhs[0].(*ast.CallExpr)
+		if !ok || len(c.Args) != 2 {
+			return true
+		}
+		sel, ok := c.Fun.(*ast.SelectorExpr)
+		if !ok || sel.Sel.Name != "ReadAt" {
+			return true
+		}
+		se, ok := c.Args[0].(*ast.SliceExpr)
+		if !ok || se.Low != nil || se.High == nil || se.Slice3 {
+			return true
+		}
+		nName, bufName = g.text(as.Lhs[0]), g.text(se.X)
+		return true
+	})
+	if nName == "" {
+		return false
+	}
+	okLit := false
+	ast.Inspect(fd.Body, func(m ast.Node) bool {
+		cl, ok := m.(*ast.CompositeLit)
+		if !ok || g.text(cl.Type) != "rreadServerPayloader" {
+			return true
+		}
+		data, full := false, false
+		for _, e := range cl.Elts {
+			kv, ok := e.(*ast.KeyValueExpr)
+			if !ok {
+				continue
+			}
+			switch g.text(kv.Key) {
+			case "rread":
+				if in, ok := kv.Value.(*ast.CompositeLit); ok && g.text(in.Type) == "rread" && len(in.Elts) == 1 {
+					if ikv, ok := in.Elts[0].(*ast.KeyValueExpr); ok && g.text(ikv.Key) == "Data" && g.text(ikv.Value) == bufName+"[:"+nName+"]" {
+						data = true
+					}
+				}
+			case "fullBuffer":
+				if g.text(kv.Value) == bufName {
+					full = true
+				}
+			}
+		}
+		okLit = data && full
+		return true
+	})
+	return okLit
+}
+
+// factCleanupZeroes: PayloadCleanup zeroes Data before the buffer goes back to the pool; zeros and pooled buffers have the same size.
+func (g *cg) factCleanupZeroes() bool {
+	fd, ok := g.funcs["rreadServerPayloader.PayloadCleanup"]
+	if !ok || len(fd.Body.List) != 2 {
+		return false
+	}
+	r := cgRecvName(fd)
+	if g.text(fd.Body.List[0]) != "copy("+r+".Data,"+r+".cs.pristineZeros)" || g.text(fd.Body.List[1]) != r+".cs.readBufPool.Put(&"+r+".fullBuffer)" {
+		return false
+	}
+	// tversion.handle: pooled buffers and pristineZeros are both make([]byte, msize)
+	tv, ok := g.funcs["tversion.handle"]
+	if !ok {
+		return false
+	}
+	sizes := map[string]bool{}
+	nmake := 0
+	ast.Inspect(tv.Body, func(m ast.Node) bool {
+		c, ok := m.(*ast.CallExpr)
+		if ok && g.text(c.Fun) == "make" && len(c.Args) == 2 && g.text(c.Args[0]) == "[]byte" {
+			sizes[g.text(c.Args[1])] = true
+			nmake++
+		}
+		return true
+	})
+	return nmake == 2 && len(sizes) == 1
 }
